@@ -78,14 +78,14 @@ pub fn gen_doc_ids(r: &mut Rng, with_h: bool, mixed_alt: bool, numeric_ids: bool
     let hnames = ["H", "HA", "HB2"];
     // ligand ids such as 017 or 1E5 are numbers to a CIF lexer
     let comps: Vec<&str> = if numeric_ids { vec!["ALA", "017", "1E5", "HOH", "0.50", "+7"] } else { vec!["ALA", "GLY", "SER", "HOH", "MG", "ala", "A1B"] };
-    let chains = ["A", "B", "AA", "x", "1", "C-2"];
+    let chains = ["A", "B", "AA", "x", "1", "C-2", ";A"];  // ";A": a text field whose content starts with a semicolon
     let n_models = match r.below(4) { 0 => 2, 1 => 3, _ => 1 };
     let n_chains = 1 + r.below(3);
     let mut shape: Vec<CifRow> = Vec::new();
     let mut id = 0usize;
     for ci in 0..n_chains {
         let label = ((b'A' + ci as u8) as char).to_string();
-        let auth = chains[(ci * 2 + r.below(2)) % chains.len()].to_string();
+        let auth = if r.chance(1, 10) { ";A".to_string() } else { chains[(ci * 2 + r.below(2)) % chains.len()].to_string() };
         let mut seq = r.range(-20, 200);
         for ri in 0..1 + r.below(4) {
             seq += 1 + if r.chance(1, 5) { r.range(1, 5) } else { 0 };
